@@ -6,7 +6,7 @@ one() {
   P="$1"; T=$(mktemp -d /tmp/rf-XXXXXX)
   (cd /repo && tar cf - --exclude=.git --exclude=mod_test .) | tar xf - -C $T
   if ! (cd $T && GIT_CEILING_DIRECTORIES=/tmp git apply --whitespace=nowarn "$P" 2>/dev/null); then echo "$P: DOES NOT APPLY"; rm -rf $T; return; fi
-  out=$(/verif/bin/verifcheck -prop all -tier quick -dry -repo $T -verif /verif 2>&1)
+  out=$(${VC:-/verif/bin/verifcheck} -prop all -tier quick -dry -repo $T -verif /verif 2>&1)
   bad=$(echo "$out" | grep -v '^DRY {"exit":0' | grep "DRY\|BROKEN\|panic" | cut -c1-600)
   if [ -n "$bad" ]; then echo "== $P"; echo "$bad"; else echo "ok $P ($(echo "$out" | grep -c '^DRY') rule sets)"; fi
   rm -rf $T
